@@ -170,6 +170,8 @@ func (d *structDecoder) tryOptimize() {
 }
 
 // decode from '\uXXXX'
+// cursor is the position of the first hex digit; the returned cursor is the position of the last
+// byte consumed (the last hex digit of the escape, or of its low surrogate for a valid pair).
 func decodeKeyCharByUnicodeRune(buf []byte, cursor int64) ([]byte, int64, error) {
 	const defaultOffset = 4
 	const surrogateOffset = 6
@@ -180,15 +182,16 @@ func decodeKeyCharByUnicodeRune(buf []byte, cursor int64) ([]byte, int64, error)
 
 	r := unicodeToRune(buf[cursor : cursor+defaultOffset])
 	if utf16.IsSurrogate(r) {
-		cursor += defaultOffset
-		if cursor+surrogateOffset >= int64(len(buf)) || buf[cursor] != '\\' || buf[cursor+1] != 'u' {
+		next := cursor + defaultOffset
+		if next+surrogateOffset >= int64(len(buf)) || buf[next] != '\\' || buf[next+1] != 'u' {
 			return []byte(string(unicode.ReplacementChar)), cursor + defaultOffset - 1, nil
 		}
-		cursor += 2
-		r2 := unicodeToRune(buf[cursor : cursor+defaultOffset])
+		r2 := unicodeToRune(buf[next+2 : next+surrogateOffset])
 		if r := utf16.DecodeRune(r, r2); r != unicode.ReplacementChar {
-			return []byte(string(r)), cursor + defaultOffset - 1, nil
+			return []byte(string(r)), next + surrogateOffset - 1, nil
 		}
+		// not a pair: only the first escape is consumed
+		return []byte(string(unicode.ReplacementChar)), cursor + defaultOffset - 1, nil
 	}
 	return []byte(string(r)), cursor + defaultOffset - 1, nil
 }
@@ -560,6 +563,8 @@ func decodeKeyByBitmapUint16Stream(d *structDecoder, s *Stream) (*structFieldSet
 }
 
 // decode from '\uXXXX'
+// s.cursor is the position of the first hex digit; on return it is the position of the last byte
+// consumed (the last hex digit of the escape, or of its low surrogate for a valid pair).
 func decodeKeyCharByUnicodeRuneStream(s *Stream) ([]byte, error) {
 	const defaultOffset = 4
 	const surrogateOffset = 6
@@ -572,21 +577,24 @@ func decodeKeyCharByUnicodeRuneStream(s *Stream) ([]byte, error) {
 
 	r := unicodeToRune(s.buf[s.cursor : s.cursor+defaultOffset])
 	if utf16.IsSurrogate(r) {
-		s.cursor += defaultOffset
-		for s.cursor+surrogateOffset >= s.length {
+		next := s.cursor + defaultOffset
+		for next+surrogateOffset >= s.length {
 			if !s.read() {
 				break
 			}
 		}
-		if s.cursor+surrogateOffset >= s.length || s.buf[s.cursor] != '\\' || s.buf[s.cursor+1] != 'u' {
+		if next+surrogateOffset >= s.length || s.buf[next] != '\\' || s.buf[next+1] != 'u' {
 			s.cursor += defaultOffset - 1
 			return []byte(string(unicode.ReplacementChar)), nil
 		}
-		r2 := unicodeToRune(s.buf[s.cursor+defaultOffset+2 : s.cursor+surrogateOffset])
+		r2 := unicodeToRune(s.buf[next+2 : next+surrogateOffset])
 		if r := utf16.DecodeRune(r, r2); r != unicode.ReplacementChar {
-			s.cursor += defaultOffset - 1
+			s.cursor = next + surrogateOffset - 1
 			return []byte(string(r)), nil
 		}
+		// not a pair: only the first escape is consumed
+		s.cursor += defaultOffset - 1
+		return []byte(string(unicode.ReplacementChar)), nil
 	}
 	s.cursor += defaultOffset - 1
 	return []byte(string(r)), nil
